@@ -87,9 +87,8 @@ struct Reporter : public osmium::area::ProblemReporter {
     void report_way(const osmium::Way&) override { ++n["way"]; }
 };
 
-const char* const rep_keys[] = {"duplicate_node", "touching_ring", "intersection", "duplicate_segment", "overlapping_segment",
-                                "ring_not_closed", "role_should_be_outer", "role_should_be_inner", "way_in_multiple_rings",
-                                "duplicate_way", "invalid_location"};
+const char* const rep_keys[] = {"touching_ring", "intersection", "duplicate_segment", "ring_not_closed", "role_should_be_outer",
+                                "role_should_be_inner"};
 
 json rep_json(const Reporter* r) {
     json j;
@@ -107,11 +106,8 @@ json rep_json(const Reporter* r) {
 
 json stats_json(const osmium::area::area_stats& s) {
     return json{{"intersections", s.intersections}, {"open_rings", s.open_rings}, {"duplicate_segments", s.duplicate_segments},
-                {"overlapping_segments", s.overlapping_segments}, {"touching_rings", s.touching_rings}, {"wrong_role", s.wrong_role},
-                {"outer_rings", s.outer_rings}, {"inner_rings", s.inner_rings}, {"duplicate_nodes", s.duplicate_nodes},
-                {"nodes", s.nodes}, {"simple", s.area_simple_case}, {"touching_case", s.area_touching_rings_case},
-                {"complex_case", s.area_really_complex_case}, {"duplicate_ways", s.duplicate_ways},
-                {"ways_in_multiple_rings", s.ways_in_multiple_rings}};
+                {"touching_rings", s.touching_rings}, {"wrong_role", s.wrong_role}, {"outer_rings", s.outer_rings},
+                {"inner_rings", s.inner_rings}};
 }
 
 json ring_pts(const osmium::NodeRefList& ring, const Embedding& em, const std::map<std::pair<int, int>, std::vector<osmium::object_id_type>>& ids_at) {
